@@ -156,6 +156,12 @@ type P struct {
 }
 
 func New(activeUnits, inactiveUnits, maxRetries, workers int) *P {
+	return NewUnit(Unit, activeUnits, inactiveUnits, maxRetries, workers)
+}
+
+// NewUnit: as New, with timeouts of the given number of units of real duration unit (real-time runs use a short unit
+// and let time pass by itself instead of shifting deadlines).
+func NewUnit(unit time.Duration, activeUnits, inactiveUnits, maxRetries, workers int) *P {
 	intermediate.MaxRetries = maxRetries
 	ch := make(chan *entities.Message)
 	in := intermediate.AggregationInput{
@@ -166,7 +172,7 @@ func New(activeUnits, inactiveUnits, maxRetries, workers int) *P {
 			AntreaFlowEndSecondsElements: []string{"flowEndSecondsFromSourceNode", "flowEndSecondsFromDestinationNode"},
 			ThroughputElements:           tput, SourceThroughputElements: tputS, DestinationThroughputElements: tputD,
 		},
-		ActiveExpiryTimeout: time.Duration(activeUnits) * Unit, InactiveExpiryTimeout: time.Duration(inactiveUnits) * Unit,
+		ActiveExpiryTimeout: time.Duration(activeUnits) * unit, InactiveExpiryTimeout: time.Duration(inactiveUnits) * unit,
 	}
 	a, err := intermediate.InitAggregationProcess(in)
 	if err != nil {
